@@ -35,7 +35,7 @@ func (x *Pointer[T]) Load() *T {
 func (x *Pointer[T]) Store(v *T) {
 	verifsim.SyncPoint()
 	x.p.Store(v)
-	verifsim.SyncPoint()
+	verifsim.AfterStore()
 }
 
 func (x *Pointer[T]) Swap(v *T) *T {
@@ -81,7 +81,7 @@ func (x *Value) CompareAndSwap(old, new any) bool {
 }
 
 func pre()  { verifsim.SyncPoint() }
-func post() { verifsim.SyncPoint() }
+func post() { verifsim.AfterStore() }
 
 func LoadInt32(a *int32) int32       { pre(); return atomic.LoadInt32(a) }
 func LoadInt64(a *int64) int64       { pre(); return atomic.LoadInt64(a) }
